@@ -543,6 +543,25 @@ def s2_hemisphere_check(ctx, c, outs):
     if sgn is not None:
         t[:, 2] = sgn * np.abs(t[:, 2])
     rad = np.rad2deg(np.arccos(np.clip((t @ v.T).max(axis=1), -1, 1)))
+    # the bound PROVED for the model's UV grid of any hemisphere with any offset (uv_hemisphere_grid_covers: grid with its
+    # pole duplicates), evaluated on the implementation's grid
+    if c["method"] == "uv":
+        from orix.sampling import sample_S2_uv_mesh
+        with warnings.catch_warnings():
+            warnings.simplefilter("ignore")
+            vg = sample_S2_uv_mesh(c["resolution"], c["hemisphere"], c["offset"], remove_pole_duplicates=False).data.reshape(-1, 3)
+        thm = 1.0 - 5.0 / 8.0 * (c["resolution"] * np.pi / 180) ** 2
+        adv = _s2_adversarial("uv", float(c["resolution"]))
+        adv = np.concatenate([adv, [[0, 0, 1.0], [0, 0, -1.0], [1.0, 0, 0], [0, -1.0, 0]]])
+        if sgn is not None:
+            adv = adv[sgn * adv[:, 2] >= 0]
+        tt = np.concatenate([t, adv])
+        best = (tt @ vg.T).max(axis=1)
+        k = int(np.argmin(best))
+        if best[k] < thm - 1e-12:
+            return (f"sample_S2_uv_mesh({c['resolution']}, {c['hemisphere']!r}, {c['offset']}, remove_pole_duplicates=False) ({len(vg)} vectors): "
+                    f"direction {tt[k].tolist()} of the hemisphere has largest scalar product {best[k]!r} with the grid < {thm!r}: the "
+                    f"covering theorem proved for the model does not hold for the implementation's grid")
     # the bound PROVED for the model's equal-area mesh of any hemisphere (equal_area_hemisphere_mesh_covers)
     if c["method"] == "equal_area" and 0.002 <= c["resolution"] <= 360:
         thm = float(np.cos(c["resolution"] * np.pi / 360) - c["resolution"] / 180)
@@ -981,7 +1000,7 @@ def generate(ctx):
 def run(ctx, status):
     driver_ok = lean_phase(ctx, status, ["OrixProofs.Properties.C19", "OrixProofs.Lemmas.SamplingBasic",
                                          "OrixProofs.Lemmas.SamplingUV", "OrixProofs.Lemmas.SamplingCube",
-                                         "OrixProofs.Lemmas.SamplingEA", "OrixProofs.Lemmas.SO3Cover"], kernels=["so3_quat_point", "from_polar_xyz"])
+                                         "OrixProofs.Lemmas.SamplingUVH", "OrixProofs.Lemmas.SamplingEA", "OrixProofs.Lemmas.SO3Cover"], kernels=["so3_quat_point", "from_polar_xyz"])
     if ctx.replay:
         site, case, body = sites.load_replay(ctx.replay)
         if site in SITES:
